@@ -154,6 +154,20 @@ CHECKS["C14"] = dict(
     technique="Lean 4 inductive invariants over a byte-level connection model + differential correspondence under synctest virtual time + wire monitor for concurrent writers",
     design="5/C14", engine="proxy")
 
+CHECKS["C15"] = dict(
+    text="Kernel-checked per-event theorems over a model of the initial handshake, for every connection state (so every order "
+         "of requests, every timing of pool replies, every interleaved notification): a pending configure / subscribe request is "
+         "answered under the same id with the pool's result (mask; extranonce and size) exactly once; subscribe is forwarded to the "
+         "connection's own destination; authorize on a subscribed connection is acknowledged exactly once and forwarded with the "
+         "credentials Model/Cred computes; authorize on a connection that has not itself subscribed is refused with no "
+         "acknowledgement, and 'subscribed' only ever becomes true by that connection's own subscribe; the handshake completes only "
+         "on a non-refusing reply under the id of a pending authorize, and a refusal fails it; an unknown contract address is "
+         "refused without dialling any pool, a known one is attached to its contract's pool; in a process of many connections an "
+         "event changes no other connection and its effect depends on its own connection's state alone. Compared op by op with "
+         "1..3 real Proxy.Connect handshakes in one process against manually driven fake pools under virtual time.",
+    technique="Lean 4 per-event theorems + non-interference over a handshake model + differential correspondence with real Proxy.Connect (several connections per process) under synctest virtual time",
+    design="5/C15", engine="proxy")
+
 NOT_YET = {}
 
 ALL = ["C%02d" % i for i in range(1, 21)]
